@@ -10,6 +10,7 @@ documented parameter must change to exactly that value) and the rejection clause
 (bad token at every key/value position of every block that is read; invalid GM2CalcConfig
 values)."""
 import hashlib
+import itertools
 import json
 import math
 import multiprocessing as mp
@@ -124,8 +125,8 @@ def has_number(out, inp):
 _W = {}
 
 
-def _winit(cli, mirror):
-    _W["cli"], _W["mirror"] = cli, mirror
+def _winit(cli, mirror, decoys=()):
+    _W["cli"], _W["mirror"], _W["decoys"] = cli, mirror, tuple(decoys)
 
 
 def run_cli(fmt, text, timeouts=(30, 120, 600)):
@@ -140,18 +141,26 @@ def run_cli(fmt, text, timeouts=(30, 120, 600)):
     return "timeout", b"", b""
 
 
-def run_mirror(items):
-    """items: [(fmt, text)] -> list of dump strings (one per item)"""
+def run_mirror(items, cmd="F", decoys=()):
+    """items: [(fmt, text)] -> list of dump strings (one per item), all read one after the other in ONE
+    process.  cmd F: fresh GM2_slha_io per file; R: one GM2_slha_io object re-used for all files.
+    decoys: files the process reads first (their dumps are dropped)"""
     if not items:
         return []
-    inp = b"".join(b"F %s %d\n" % (fmt.encode(), len(t.encode("latin-1"))) + t.encode("latin-1") + b"\n"
-                   for fmt, t in items)
+    allitems = list(decoys) + list(items)
+    inp = b"".join(b"%s %s %d\n" % (cmd.encode(), fmt.encode(), len(t.encode("latin-1"))) + t.encode("latin-1") + b"\n"
+                   for fmt, t in allitems)
     p = subprocess.run([_W["mirror"]], input=inp, stdout=subprocess.PIPE, stderr=subprocess.PIPE)
     out = p.stdout.decode("latin-1")
     dumps = re.findall(r"BEGIN \w+\n(.*?)END\n", out, re.S)
-    if p.returncode != 0 or len(dumps) != len(items):
+    if p.returncode != 0 or len(dumps) != len(allitems):
         return ["MIRROR-DIED rc=%r" % p.returncode] * len(items)
-    return dumps
+    return dumps[len(decoys):]
+
+
+def _w_mirror(task):
+    items, cmd = task
+    return run_mirror(items, cmd)
 
 
 def parse_dump(d):
@@ -167,9 +176,10 @@ def parse_dump(d):
     return r
 
 
-def evaluate(fmt, ofmt, texts):
-    """[(rc, obs, diag, dump)]"""
-    dumps = run_mirror([(fmt, t) for t in texts])
+def evaluate(fmt, ofmt, texts, decoy=False):
+    """[(rc, obs, diag, dump)]; decoy: the mirror process first reads files of all three formats with other
+    content (another HMIX scale), so state that survives from one file to the next shows up"""
+    dumps = run_mirror([(fmt, t) for t in texts], "F", _W.get("decoys", ()) if decoy else ())
     res = []
     for t, d in zip(texts, dumps):
         rc, out, err = run_cli(fmt, t)
@@ -423,7 +433,7 @@ def _w_expand(task):
     """expand one state with one operator, check the model invariant, run the program.
     returns (transitions, dropped_by_model, model_errors, [(variant, pos, sha, rc, obs_equal, mirror_equal, text|None,
     detail)])"""
-    (fmt, ofmt, base_cont, base_rc, base_obs, base_dump, text, op, cap, k, n, want_text) = task
+    (fmt, ofmt, base_cont, base_rc, base_obs, base_dump, text, op, cap, k, n, want_text, decoy) = task
     cands, dropped, merr = [], 0, []
     for j, (var, pos, new) in enumerate(gen_ops(text, fmt, op, cap)):
         if j % n != k:
@@ -439,7 +449,7 @@ def _w_expand(task):
             dropped += 1
             continue
         cands.append((var, pos, new))
-    res = evaluate(fmt, ofmt, [c[2] for c in cands])
+    res = evaluate(fmt, ofmt, [c[2] for c in cands], decoy)
     out = []
     for (var, pos, new), (rc, obs, diag, dump) in zip(cands, res):
         ok_cli = (rc == base_rc and obs == base_obs)
@@ -448,7 +458,8 @@ def _w_expand(task):
         if not ok_cli:
             detail = "exit %r stdout %r, original: exit %r stdout %r" % (rc, _short(obs), base_rc, _short(base_obs))
         elif not ok_mir:
-            detail = "reader filled different parameters: " + _dump_diff(base_dump, dump)
+            detail = "reader filled different parameters%s: %s" % (
+                " (read in a process that had read other files before)" if decoy else "", _dump_diff(base_dump, dump))
         out.append((var, pos, hashlib.sha1(new.encode("latin-1")).hexdigest(), ok_cli, ok_mir,
                     new if (want_text or detail) else None, detail))
     return len(cands) + dropped, dropped, merr, out
@@ -473,7 +484,7 @@ def _hx(s):
 
 
 # ----------------------------------------------------------------------------- BFS
-def bfs(ctx, pool, base, depth, caps, k1s, stats):
+def bfs(ctx, pool, base, depth, caps, k1s, stats, decoy=True):
     """caps[d]: positions per variant at depth d (None = all); k1s[d]: representatives per
     (operator-sequence class) of depth d that are expanded further"""
     name, fmt, text, _ = base
@@ -493,7 +504,7 @@ def bfs(ctx, pool, base, depth, caps, k1s, stats):
             for op in OPS:
                 n = 16 if (d == 1 and caps[d] is None) else 1
                 for k in range(n):
-                    tasks.append((fmt, ofmt, cont, rc0, obs0, dump0, text_s, op, caps[d], k, n, not last))
+                    tasks.append((fmt, ofmt, cont, rc0, obs0, dump0, text_s, op, caps[d], k, n, not last, decoy))
                     meta.append((seq, op))
         newstates = {}
         for (seq, op), (ntr, dropped, merr, out) in zip(meta, pool.imap(_w_expand, tasks, chunksize=1)):
@@ -536,9 +547,9 @@ def _seqstr(seq):
 
 
 # ----------------------------------------------------------------------------- scale rule
-def scale_family(ctx, pool, stats):
-    """files with 2-3 HMIX blocks at different Q and MSOFT/AU/AD/AE at each of them: only the
-    blocks at the scale of the LAST HMIX block may matter"""
+def build_scale_family():
+    """-> (refs, refs_noau, cases, qs): single-scale reference files and files with 2-3 HMIX blocks at
+    different Q and MSOFT/AU/AD/AE at each of them"""
     text = _nl(open(os.path.join(REPO, "input", "example.slha")).read())
     f = M.parse(text)
     L = text.split("\n")[:-1]
@@ -570,7 +581,6 @@ def scale_family(ctx, pool, stats):
     mk = lambda blocks: "\n".join(rest + [ln for blk in blocks for ln in blk]) + "\n"
     refs = [mk([groups[j][n] for n in names]) for j in range(3)]
     refs_noau = [mk([groups[j][n] for n in names if n != "AU"]) for j in range(3)]
-    import itertools
     cases = []   # (descr, text, index of expected reference, ref list, perm)
     for n in (2, 3):
         for perm in itertools.permutations(range(3), n):
@@ -589,6 +599,12 @@ def scale_family(ctx, pool, stats):
             cases.append(("AU missing at the deciding scale %r" % (perm,),
                           mk([groups[j][nm] for j in perm for nm in names if not (nm == "AU" and j == lastj)]),
                           lastj, refs_noau, perm))
+    return refs, refs_noau, cases, qs
+
+
+def scale_family(ctx, pool, stats):
+    """only the blocks at the scale of the LAST HMIX block may matter"""
+    refs, refs_noau, cases, qs = build_scale_family()
     cont_refs = [M.content(r, "slha") for r in refs]
     ofmt = out_format("slha", cont_refs[0])
     rres = pool.map(_w_eval, [("slha", ofmt, [r]) for r in refs + refs_noau])
@@ -614,6 +630,106 @@ def scale_family(ctx, pool, stats):
                      % ([qs[k] for k in perm], descr, qs[j], det),
                      {"kind": "rewrite", "base": "scale-family " + descr, "fmt": "slha", "original": reftext, "rewritten": txt})
     stats["scale_cases"] = len(cases)
+
+
+# ----------------------------------------------------------------------------- process isolation
+def make_decoys():
+    """files of all three formats whose content differs from every base (slha: another HMIX scale)"""
+    refs = build_scale_family()[0]
+    return [("slha", refs[2]),
+            ("gm2calc", _nl(open(os.path.join(REPO, "test", "test_points", "problems_funcs_M1_zero.in")).read())),
+            ("thdm", _nl(open(os.path.join(REPO, "test", "test_points", "thdm_gauge-basis.in")).read()))]
+
+
+def isolation(ctx, pool, bases, stats):
+    """the parameters filled from a file must not depend on what the same process read before: several files
+    are read one after the other in ONE process (fresh GM2_slha_io + fresh model objects per file; and ONE
+    GM2_slha_io object re-used through read_from_file) and every dump must equal bitwise the dump of a
+    process that read only that file.  returns True if everything held"""
+    refs, refs_noau, cases, qs = build_scale_family()
+    by = {b[0]: b for b in bases}
+    F = {}                  # label -> (fmt, text)
+    for lab, j in (("A", 0), ("B", 1), ("C", 2)):
+        F[lab] = ("slha", refs[j])
+    F["M01"] = ("slha", [c for c in cases if c[0] == "grouped (0, 1)"][0][1])
+    F["M120"] = ("slha", [c for c in cases if c[0] == "grouped (1, 2, 0)"][0][1])
+    F["M20r"] = ("slha", [c for c in cases if c[0] == "soft blocks in reverse scale order (2, 0)"][0][1])
+    short = {"xs": "input/example.slha", "xg": "input/example.gm2", "xt": "input/example.thdm",
+             "ts1": "test_points/problems_hmix_scale.in", "ts2": "test_points/problems_bug_smuon_mixing.in",
+             "ts3": "test_points/problems_throw_me2_convergence.in", "ts4": "test_points/problems_bino_reordering.in",
+             "tg1": "test_points/problems_funcs_M1_zero.in", "tg2": "test_points/BM1-1504.05500_2L_resummed.in",
+             "tt1": "test_points/thdm_gauge-basis.in", "tt2": "test_points/thdm_mass-basis_test_point_1.in",
+             "tt3": "test_points/thdm_mass-basis_test_point_6.in"}
+    for lab, name in short.items():
+        F[lab] = (by[name][1], by[name][2])
+    seqs = []               # (family, [labels])
+    for x, y in itertools.permutations("ABC", 2):
+        seqs.append(("scale", [x, y]))
+        seqs.append(("scale", [x, y, x]))
+    seqs += [("scale", ["M01", "A"]), ("scale", ["A", "M01", "B"]), ("scale", ["M120", "C", "M120"]),
+             ("scale", ["B", "M20r", "A", "M120"]), ("scale", ["C", "B", "A", "B", "C"])]
+    for perm in itertools.permutations(["xs", "xg", "xt"]):
+        seqs.append(("formats", list(perm) * 2))
+    tp = ["ts1", "tg1", "tt1", "ts2", "tg2", "tt2", "ts3", "xs", "tt3", "xg", "ts4", "xt"]
+    seqs += [("formats", tp), ("formats", tp[::-1]), ("formats", tp[5:] + tp[:5]), ("formats", tp[8:] + tp[:8]),
+             ("formats", ["ts1", "ts3", "ts2", "xs", "ts4", "ts1"]), ("formats", ["tt1", "tt2", "xt", "tt3", "tt1"]),
+             ("formats", ["tg1", "xg", "tg2", "tg1"])]
+    # a sample of rewritten states of the examples and of the multi-scale test point, read between files with other content
+    other = {"input/example.slha": ["C", "ts1"], "input/example.gm2": ["tg1", "xs"], "input/example.thdm": ["tt1", "xs"],
+             "test_points/problems_hmix_scale.in": ["A", "tg1"]}
+    nstates = 0
+    for name in sorted(other):
+        _, fmt, text, _ = by[name]
+        cont = M.content(text, fmt)
+        st = []
+        for op in OPS:
+            for var, pos, new in gen_ops(text, fmt, op, 1 if ctx.quick else 2):
+                if new != text and M.content(new, fmt) == cont:
+                    st.append(("%s:%s.%s@%s" % (name.split("/")[-1], op, var, pos), new))
+        st = thin(st, 24 if ctx.quick else 80)
+        nstates += len(st)
+        seq = []
+        for i, (lab, new) in enumerate(st):
+            if i % 3 == 0:
+                seq.append(other[name][(i // 3) % 2])
+            F[lab] = (fmt, new)
+            seq.append(lab)
+        seqs.append(("rewritten", seq))
+        seqs.append(("rewritten", seq[::-1]))
+    labels = sorted(F)
+    single = dict(zip(labels, [r[0] for r in pool.map(_w_mirror, [([F[l]], "F") for l in labels])]))
+    single_r = dict(zip(labels, [r[0] for r in pool.map(_w_mirror, [([F[l]], "R") for l in labels])]))
+    ok = True
+    for l in labels:
+        ctx.evals(1)
+        if single[l].startswith("MIRROR-DIED"):
+            raise InfraError("cli_mirror died on " + l)
+        if single_r[l] != single[l]:
+            ok = False
+            ctx.fail("isolation:file-vs-stream:%s" % F[l][0],
+                     "%s: read_from_file and read_from_stream fill different parameters: %s" % (l, _dump_diff(single[l], single_r[l])),
+                     {"kind": "isolation", "cmd": "R", "items": [list(F[l])], "labels": [l], "index": 0})
+    tasks = [([F[l] for l in seq], cmd) for fam, seq in seqs for cmd in ("F", "R")]
+    meta = [(fam, seq, cmd) for fam, seq in seqs for cmd in ("F", "R")]
+    ncmp = 0
+    for (fam, seq, cmd), dumps in zip(meta, pool.map(_w_mirror, tasks)):
+        for i, (l, d) in enumerate(zip(seq, dumps)):
+            ctx.evals(1)
+            ncmp += 1
+            how = "fresh-reader" if cmd == "F" else "reused-reader"
+            if i:
+                ctx.nontrivial(("isolation", fam, how, F[l][0], F[seq[i - 1]][0]))
+            if d != single[l]:
+                ok = False
+                ctx.fail("isolation:%s:%s:%s" % (fam, how, F[l][0]),
+                         "%s input %s read as file #%d of one process (%s, after %s) fills other parameters than in a process of "
+                         "its own: %s" % (F[l][0], l, i + 1, "new GM2_slha_io per file" if cmd == "F" else "one GM2_slha_io re-used",
+                                          ", ".join(seq[:i]) or "nothing", _dump_diff(single[l], d)),
+                         {"kind": "isolation", "cmd": cmd, "items": [list(F[x]) for x in seq[:i + 1]], "labels": seq[:i + 1], "index": i})
+    stats["isolation_sequences"] = len(tasks)
+    stats["isolation_files_compared"] = ncmp
+    stats["isolation_rewritten_states"] = nstates
+    return ok
 
 
 # ----------------------------------------------------------------------------- key tables
@@ -816,7 +932,8 @@ def run(ctx):
     build.ensure("plain")
     cli = build.cli("plain")
     mirror = build.harness("cli_mirror", "plain", ["cli_mirror.cpp"])
-    _winit(cli, mirror)
+    decoys = make_decoys()
+    _winit(cli, mirror, decoys)
     bases = load_bases()
     stats = {"states": 0, "transitions": 0, "merged": 0, "dropped_by_model": {}, "per_op": {}}
     # model self-check: content(canon(content)) is a fixed point on every base
@@ -826,12 +943,16 @@ def run(ctx):
             raise InfraError("reader model: canon/content not a fixed point on " + name)
     deep_tp = ["test_points/problems_hmix_scale.in", "test_points/thdm_gauge-basis.in",
                "test_points/problems_funcs_M1_zero.in", "test_points/problems_bug_smuon_mixing.in"]
-    with mp.Pool(min(16, os.cpu_count() or 4), initializer=_winit, initargs=(cli, mirror)) as pool:
+    with mp.Pool(min(16, os.cpu_count() or 4), initializer=_winit, initargs=(cli, mirror, decoys)) as pool:
         kfails = []
         key_tables(ctx, stats, kfails)
         for k, what, data in kfails:
             ctx.fail(k, what, data)
         scale_family(ctx, pool, stats)
+        isolated = isolation(ctx, pool, bases, stats)
+        if not isolated:
+            # already reported above; the BFS then compares one-content batches only, to keep its verdicts about rewrites
+            ctx.note("bfs_decoys", "off: reader state survives between files (see isolation failures)")
         config_rejection(ctx, pool, stats)
         if ctx.quick:
             deep_tp = deep_tp[:2]
@@ -855,14 +976,15 @@ def run(ctx):
                 depth = 1
                 caps = {1: 2 if ctx.quick else 24}
                 k1s = {}
-            nb[name] = bfs(ctx, pool, base, depth, caps, k1s, stats)
+            nb[name] = bfs(ctx, pool, base, depth, caps, k1s, stats, decoy=isolated)
     unconditional = {op: n for op, n in stats["dropped_by_model"].items() if n and op not in ("R1", "R2", "R11", "R13", "R8", "R12")}
     ctx.note("states_per_base", {k: v for k, v in sorted(nb.items()) if k.startswith("input/") or k in deep_tp})
     ctx.note("bases", len(bases))
     ctx.note("candidates_dropped_because_model_says_content_changes", stats["dropped_by_model"])
     ctx.note("new_states_per_operator", dict(sorted(stats["per_op"].items())))
     ctx.note("states_merged_same_text", stats["merged"])
-    for k in ("scale_cases", "keys_perturbed", "bad_token_cases", "config_cases"):
+    for k in ("scale_cases", "keys_perturbed", "bad_token_cases", "config_cases", "isolation_sequences",
+              "isolation_files_compared", "isolation_rewritten_states"):
         ctx.note(k, stats.get(k, 0))
     if unconditional:
         raise InfraError("operators that preserve content by construction were rejected by the model: %r" % unconditional)
@@ -882,6 +1004,10 @@ def run(ctx):
         "variant, depth 2 = from %s representative state(s) (first/middle/last position) per operator variant, %s positions per variant, "
         "%s; %d test points: depth 1 with %d evenly strided positions per variant, %d of them to depth 2; sequences leading to the same "
         "text merged; a candidate is kept iff the reader model says content(rewritten)==content(original) (dropped ones counted); "
+        "every BFS state is read by the reader harness in a process that has read three other files first and compared with "
+        "a base read in a process of its own; plus file sequences in ONE process (scale family A,B / A,B,A / multi-scale, the "
+        "three formats in all orders, test points alternating, rewritten states between foreign files) with a fresh and with "
+        "one re-used GM2_slha_io, each dump compared bitwise with a one-file process; "
         "plus 72 multi-scale files, one perturbation per documented key, 12 bad tokens at every key/value/Q position of the blocks "
         "that are read (quick: examples + 2 test points with 12 positions), 8 invalid values per GM2CalcConfig entry; "
         "distinct = (format, depth, operator, variant) on bases that print a number, documented keys, (block, position kind, bad token), "
@@ -894,7 +1020,7 @@ def run(ctx):
 
 def replay(ctx, path):
     build.ensure("plain")
-    _winit(build.cli("plain"), build.harness("cli_mirror", "plain", ["cli_mirror.cpp"]))
+    _winit(build.cli("plain"), build.harness("cli_mirror", "plain", ["cli_mirror.cpp"]), make_decoys())
     rec = json.load(open(path))
     d = rec["data"]
     kind = d["kind"]
@@ -902,12 +1028,23 @@ def replay(ctx, path):
         fmt = d["fmt"]
         cont = M.content(d["original"], fmt)
         ofmt = out_format(fmt, cont)
-        a, b = evaluate(fmt, ofmt, [d["original"], d["rewritten"]])
+        (a,), (b,) = evaluate(fmt, ofmt, [d["original"]]), evaluate(fmt, ofmt, [d["rewritten"]], decoy=True)
         print("replay: original  exit %r stdout %s" % (a[0], _short(a[1])))
         print("replay: rewritten exit %r stdout %s   (%s)" % (b[0], _short(b[1]), d.get("seq") or d.get("base")))
         if (a[0], a[1]) != (b[0], b[1]) or a[3] != b[3]:
             if a[3] != b[3]:
                 print("replay: reader parameters differ: " + _dump_diff(a[3], b[3]))
+            print("VIOLATION property=C13 replay=%s" % path)
+            return 1
+        print("replay: holds now")
+        return 0
+    if kind == "isolation":
+        items = [tuple(x) for x in d["items"]]
+        seqd = run_mirror(items, d["cmd"])[d["index"]]
+        alone = run_mirror([items[d["index"]]], "F")[0]
+        print("replay: %s file %s after %s in one process (%s)" % (items[-1][0], d["labels"][-1], d["labels"][:-1], d["cmd"]))
+        if seqd != alone:
+            print("replay: differs from a process of its own: " + _dump_diff(alone, seqd))
             print("VIOLATION property=C13 replay=%s" % path)
             return 1
         print("replay: holds now")
